@@ -11,7 +11,7 @@ PROPERTY = "C14"
 LEVEL = "exploration"
 RULE = (
     "Hypothesis lists of 1..4 one-axis index dimensions (1..5 categories, skewed, any common value incl. absent), "
-    "N in 0..20 (two fifths of the cases 40..120 rows with lopsided categories), built by an independent constructor. Oracle: by scanning rows, the multiset "
+    "N in 0..20 (two fifths of the cases 40..120 rows with lopsided categories), built by an independent constructor (row-id arrays contiguous, read-only or non-contiguous views). Oracle: by scanning rows, the multiset "
     "{(c, rows(c)) : c in prod(uncommon_d u {-1}) minus {all -1}, rows(c) non-empty}; compared with what walk() "
     "delivers to one callback, to each of two callbacks, and with interactions(); row ids must be strictly "
     "increasing uint32 and no coordinate may equal its dimension's common value. Non-trivial = at least 3 "
@@ -39,7 +39,7 @@ def check(case, rec):
     dense = Q.dense_dims(case)
     N = case["N"]
     commons = [d["common"] for d in case["dims"]]
-    idxs = [Q.build_index(a, c) for a, c in zip(dense, commons)]
+    idxs = [Q.build_index(a, c, readonly=case.get("readonly", False)) for a, c in zip(dense, commons)]
     shape_arg, _ = Q.cube_shape(case, dense)
     cols = [a.tolist() for a in dense]
     uncommon = [sorted(set(c) - {k}) for c, k in zip(cols, commons)]
@@ -93,7 +93,8 @@ def check(case, rec):
     with libcall("ccube.interactions"):
         inter = ccube(idxs, shape_arg).interactions()
     same(canon(inter, "interactions()"), "interactions()")
-    rec.note("nd=%d" % len(dense), "delivered=%s" % ("0" if not want else "1+"))
+    rec.note("nd=%d" % len(dense), "delivered=%s" % ("0" if not want else "1+"),
+             "rowids=%s" % {False: "plain", True: "readonly"}.get(case.get("readonly", False), "strided"))
     if len(dense) >= 3 and mixed:
         rec.nontrivial()
 
